@@ -157,7 +157,9 @@ async fn drive(cfg: &Cfg, ch: &mut Chooser, w: &mut World, run: &mut Run) -> Res
             alts.push((Act::DeliverRest, env(0)));
         }
         let unwritten = w.callers.iter().any(|c| c.stream.is_none() && !c.checked && w.ex.polls(c.task) > 0);
-        if cfg.coalescing == "1ms" && unwritten && advances < 12 {
+        // (at most 3 advances in a row: the coalescing sleep is 1 ms, so after three 1 ms steps with nothing else happening
+        // every write that was going to happen has happened; the counter restarts with every other action)
+        if cfg.coalescing == "1ms" && unwritten && advances < 3 {
             alts.push((Act::Advance, env(0)));
         }
         if next_start < cfg.n {
@@ -187,6 +189,9 @@ async fn drive(cfg: &Cfg, ch: &mut Chooser, w: &mut World, run: &mut Run) -> Res
         let costs: Vec<u32> = alts.iter().map(|(_, c)| *c).collect();
         debug_assert_eq!(costs[0], 0);
         let pick = ch.choose_costed("step", &costs);
+        if !matches!(alts[pick].0, Act::Advance) {
+            advances = 0;
+        }
         match alts[pick].0.clone() {
             Act::Poll(t) => w.poll_task(t).await,
             Act::Start => {
